@@ -8,6 +8,9 @@ COMMON_ASSUME = [
     "SHA-256 abstract: conclusions hold modulo an exhibited collision",
 ]
 
+def packet_prop(expl, extra_assume=()):
+    return {"level": "proof", "streams": [PACKET_STREAM], "assumptions": COMMON_ASSUME + list(extra_assume), "explanation": expl}
+
 PROPS = {
     "C01": {
         "level": "proof",
@@ -16,4 +19,8 @@ PROPS = {
         "assumptions": COMMON_ASSUME,
         "explanation": "Lean theorems over the packet-keeper / msg-server / N-chain world model; model tied to the code by the packet correspondence stream (real simapp chains, real IAVL proofs) and the implementation-side oracle `recv-accepted-without-commitment`.",
     },
+    "C02": packet_prop("`deliver_at_most_once`: invariant over all op histories of the N-chain world (callback log vs receipt / clean point), plus the acceptance lemma for live packets; correspondence on replay-heavy packet histories; oracles count accepted receives per key."),
+    "C03": packet_prop("ack authenticity (`AckOk`), written-once / non-empty (`WriteAckOk`), commitment deleted on ack, recorded ack = application's ack; correspondence with forged / replayed acks; oracles check commitment-before and ack-at-prover on the real stores."),
+    "C09": packet_prop("`send_seq_invariant` over all histories (sequences handed out are exactly 1..nextSend-1 in order), exact write-set of a successful send, failing send / transfer unchanged; correspondence incl. failing sends; oracles on next-sequence / commitment / event."),
+    "C10": packet_prop("accept-iff conditions for CleanPacket / RecvCleanPacket, exact delete set, `cleanpoint_monotone` and `refused_for_good` over all histories; correspondence with cleans on source / relay / destination in all orders; oracles on monotonicity and refusal."),
 }
